@@ -98,7 +98,8 @@ def run_config(res, n, d, fc, sc, ks, queries, stats):
     import digital_rf
     rng = res.rng
     top = common.scratch_dir()
-    w = digital_rf.DigitalMetadataWriter(top, sc, fc, n, d, PREFIX)
+    nf = common.number_form
+    w = digital_rf.DigitalMetadataWriter(top, nf(rng, sc), nf(rng, fc), nf(rng, n), nf(rng, d), PREFIX)
     i = 0
     while i < len(ks):
         m = rng.choice([1, 1, 2, 3, 5])
